@@ -197,6 +197,32 @@ impl Blob
         );
     }
 
+    /*  A target that was just recovered or downloaded is a different file from the one its
+        remembered FileState describes, so that FileState must not feed the timestamp
+        optimization.  Re-read the state of those targets from the system. */
+    pub fn refresh_restored_file_states<SystemType: System>
+    (
+        self : &mut Self,
+        system : &SystemType,
+        resolutions : &Vec<FileResolution>
+    )
+    -> Result<(), GetCurrentFileInfoError>
+    {
+        for (target_info, resolution) in self.file_infos.iter_mut().zip(resolutions.iter())
+        {
+            match resolution
+            {
+                FileResolution::Recovered | FileResolution::Downloaded =>
+                {
+                    target_info.file_state = get_actual_file_state(
+                        system, &target_info.path, &FileState::empty())?;
+                },
+                _ => {},
+            }
+        }
+        Ok(())
+    }
+
     pub fn get_file_infos
     (
         self : &Self
